@@ -171,6 +171,11 @@ def run_unit(u):
                     case(t, cand, None, None, label='unicode_digits')
                     case(t, None, cand, g, label='unicode_digits')
                     case(t, g, None, cand, label='unicode_digits')
+        # a type keyword that is "week" only under Unicode case folding (KELVIN SIGN): HTML keywords are ASCII case-insensitive
+        for tk in ('wee\u212a', 'WEE\u212a', 'wee\u212A'.upper()):
+            case(tk, '2020-W10', None, None, nontrivial=False, label='non_ascii_type_keyword')
+            case(tk, '2020-W10', '2020-W20', '2020-W30', nontrivial=False, label='non_ascii_type_keyword')
+            case(tk, None, '2020-W20', '2020-W30', nontrivial=False, label='non_ascii_type_keyword')
         good = {'date': '2020-02-29', 'month': '2020-12', 'week': '2020-W53', 'time': '23:59', 'datetime-local': '2020-02-29T23:59',
                 'number': '-12.5', 'range': '3'}
         junk = ['', ' ', 'x', '-', ':', 'T', 'W', '0', '/', '.', '+', 'Z', '\n']
